@@ -40,10 +40,11 @@ type Binder struct {
 	pubRev              map[int]wamp.ID
 	inv                 map[invKey]int
 	invRev              map[int]invKey
+	internalReg         map[wamp.ID]bool // registrations of the realm's own meta procedures
 }
 
 func NewBinder() *Binder {
-	return &Binder{sub: map[wamp.ID]int{}, reg: map[wamp.ID]int{}, pub: map[wamp.ID]int{}, subRev: map[int]wamp.ID{}, regRev: map[int]wamp.ID{}, pubRev: map[int]wamp.ID{}, inv: map[invKey]int{}, invRev: map[int]invKey{}}
+	return &Binder{sub: map[wamp.ID]int{}, reg: map[wamp.ID]int{}, pub: map[wamp.ID]int{}, subRev: map[int]wamp.ID{}, regRev: map[int]wamp.ID{}, pubRev: map[int]wamp.ID{}, inv: map[invKey]int{}, invRev: map[int]invKey{}, internalReg: map[wamp.ID]bool{}}
 }
 
 // SeqRealm couples a model realm with its binder and sessions.
@@ -60,6 +61,10 @@ type Seq struct {
 	Slots  []*Sess // slot -> current session (nil if none)
 	MS     []*MSess
 	Step   int
+	maskIDs    []string              // ids of sessions ending concurrently: which of them an announcement names is not determined
+	lenientTo  map[int]bool          // sessions ending concurrently in this step: what else reaches them is not determined
+	metaRender map[invKey]MetaRender // (caller idx, request) -> renderer of the meta RESULT
+	MetaKill   bool
 	curIdx   []int   // slot -> index into Slots of the session currently there (-1 none)
 	deadSess []*Sess // ended sessions: must not receive anything further
 	// options
@@ -68,7 +73,7 @@ type Seq struct {
 }
 
 func NewSeq(c *Ctx, w *World) *Seq {
-	return &Seq{C: c, W: w, Realms: map[string]*SeqRealm{}}
+	return &Seq{C: c, W: w, Realms: map[string]*SeqRealm{}, metaRender: map[invKey]MetaRender{}}
 }
 
 func (q *Seq) AddRealm(m *MRealm) *SeqRealm {
@@ -221,7 +226,11 @@ func (q *Seq) render(r *SeqRealm, sidx int, m wamp.Message) []string {
 		if p, _ := x.Details["progress"].(bool); p {
 			det = detText("progress", "true")
 		}
-		return []string{fmt.Sprintf("RESULT(%d,%s,%s)", x.Request, det, payload(x.Arguments, x.ArgumentsKw)), fmt.Sprintf("RESULT(%d,?)", x.Request)}
+		out := []string{fmt.Sprintf("RESULT(%d,%s,%s)", x.Request, det, payload(x.Arguments, x.ArgumentsKw)), fmt.Sprintf("RESULT(%d,?)", x.Request)}
+		if f := q.metaRender[invKey{sidx, x.Request}]; f != nil {
+			out = append(out, f(b, x))
+		}
+		return out
 	case *wamp.Goodbye:
 		return []string{fmt.Sprintf("GOODBYE(%s)", x.Reason), "GOODBYE(*)"}
 	case *wamp.Abort:
@@ -468,6 +477,21 @@ func (q *Seq) Compare(r *SeqRealm, what string, exp []Exp, pending *MCall) {
 					a.used = true
 					return true
 				}
+				if len(q.maskIDs) > 0 && strings.Contains(t, "on_delete") {
+					mt := t
+					for _, id := range q.maskIDs {
+						mt = strings.ReplaceAll(mt, id, "K")
+					}
+					for _, x := range rs {
+						for _, id := range q.maskIDs {
+							x = strings.ReplaceAll(x, id, "K")
+						}
+						if x == mt {
+							a.used = true
+							return true
+						}
+					}
+				}
 			}
 		}
 		for _, t := range texts {
@@ -504,6 +528,9 @@ func (q *Seq) Compare(r *SeqRealm, what string, exp []Exp, pending *MCall) {
 			continue
 		}
 		if !matchOne(i) {
+			if q.lenientTo[exp[i].To] && !strings.HasPrefix(exp[i].Text, "GOODBYE(") {
+				continue
+			}
 			want := exp[i].Text
 			if len(exp[i].Alt) > 0 {
 				want = strings.Join(exp[i].Alt, " | ")
@@ -512,6 +539,9 @@ func (q *Seq) Compare(r *SeqRealm, what string, exp []Exp, pending *MCall) {
 		}
 	}
 	for _, a := range acts {
+		if !a.used && q.lenientTo[a.sidx] {
+			continue
+		}
 		if !a.used && q.IgnoreMeta {
 			if ev, ok := a.msg.(*wamp.Event); ok {
 				if rs := q.render(r, a.sidx, ev); strings.Contains(rs[0], ",*,") {
@@ -530,3 +560,30 @@ func (q *Seq) retire(s *Sess) { q.deadSess = append(q.deadSess, s) }
 
 // Settle waits for quiescence at the current instant.
 func (q *Seq) Settle() { simrt.WaitQuiescent("seq") }
+
+// LearnInternalRegs asks the realm (through the session in slot) for the
+// registrations that exist before any client registered anything: the
+// realm's own wamp.* procedures.
+func (q *Seq) LearnInternalRegs(slot int) {
+	s, _ := q.cur(slot)
+	if s == nil {
+		return
+	}
+	r := q.Realms[string(s.Realm)]
+	req := s.NextReq()
+	s.Send(&wamp.Call{Request: req, Options: wamp.Dict{}, Procedure: "wamp.registration.list"})
+	q.Settle()
+	for _, rc := range s.Take() {
+		if res, ok := rc.Msg.(*wamp.Result); ok && res.Request == req && len(res.Arguments) > 0 {
+			d, _ := wamp.AsDict(res.Arguments[0])
+			for _, k := range []string{"exact", "prefix", "wildcard"} {
+				l, _ := wamp.AsList(d[k])
+				for _, e := range l {
+					if id, ok := wamp.AsID(e); ok {
+						r.B.internalReg[id] = true
+					}
+				}
+			}
+		}
+	}
+}
